@@ -38,7 +38,7 @@ if [ "$TIER" = quick ]; then BUDGET="${VERIF_BUDGET_S:-75}"; else BUDGET="${VERI
 mkdir -p "$SCR/replays"
 for i in $(seq 0 $((WORKERS-1))); do
   ( cd "$SCR" && ulimit -v 8000000 && PEGSIM_PROP=$PROP PEGSIM_TIER=$TIER PEGSIM_SEED=$SEED PEGSIM_WORKER=$i PEGSIM_WORKERS=$WORKERS \
-      PEGSIM_BUDGET_S=$BUDGET PEGSIM_OUT="$SCR/out-$i.json" PEGSIM_REPLAYDIR="$SCR/replays" \
+      PEGSIM_KNOWN=$VERIF/known_findings.json PEGSIM_BUDGET_S=$BUDGET PEGSIM_OUT="$SCR/out-$i.json" PEGSIM_REPLAYDIR="$SCR/replays" \
       ./pegsim.test -test.run '^TestWorker$' -test.timeout 0 > "$SCR/worker-$i.log" 2>&1 ) &
 done
 wait
